@@ -102,7 +102,7 @@ pub fn cold_starts(cfg: &RunCfg, bin: &std::path::Path, count: usize, stats: &mu
     struct Nop;
     impl Obs for Nop {}
     let mut runner = TestRunner::new(proptest_config(1, shard_seed(cfg.seed, "C18-cold", 0, 0)));
-    let params = GameParams { max_ops: 30, w_setup: 0, w_pos: 4, w_small: 3, w_frozen: 0, hanging: false, w_motif: 2 };
+    let params = GameParams { max_ops: 30, w_setup: 0, w_pos: 4, w_small: 3, w_frozen: 0, hanging: false, w_motif: 2, w_open: 0 };
     let dir = target_dir().join("c18-cold");
     let _ = std::fs::create_dir_all(&dir);
     let mut jobs: Vec<(std::path::PathBuf, Value)> = vec![];
